@@ -16,6 +16,7 @@ Not decided: PCA numerics, value equality.
 import ast
 
 from vlib import q
+from vlib.pat import Pat, returned
 from vlib.front import unparse, dotted, const_value, AnchorMissing
 from vlib.shape import Shape, Space, Ix, Q, D, BoolT, StrT, NoneT, SizeOf, UNK, is_unk, Arr, Rec, Tup, ListT, DictT, B
 from obligations.shape_tables import (model_attrs, COMMON_SIGS, M, AR, Tmpl, Clu, Chan, Samp, Spike, Loc, LocT, PC, FeatRow, FEAT, RAW)
@@ -60,20 +61,59 @@ def run(ctx):
         nrep += flush(ctx, S, 'get_template_features, ' + lab)
         ok = isinstance(res, Arr) and len(res.axes) == 2 and res.axes[1] is Tmpl and (res.axes[0] is ReqS or res.axes[0].kind == 'Isect')
         ctx.check(ok, 'C06.A2', gtf, lab + ' axes', '%s: template features on (spikes, all templates)' % lab, '%s: template features are %s' % (lab, res))
-    # structural: which vector goes where
-    a = {unparse(x.targets[0]): x for x in gf.nodes(ast.Assign) if isinstance(x.targets[0], ast.Name)}
-    st = [x for x in gf.nodes(ast.Assign) if isinstance(x.targets[0], ast.Subscript) and unparse(x.targets[0].value) == 'features' and 'sf.data[' in unparse(x.value)]
-    ok = bool(st) and unparse(st[0].targets[0]).replace(' ', '') == 'features[rows_out,...]' and unparse(st[0].value).replace(' ', '') == 'sf.data[rows]'
-    ctx.check(ok, 'C06.A1', gf, st[0] if st else 'get_features', 'stored rows `rows` are written to request positions `rows_out`', 'the stored rows are not written as features[rows_out, ...] = sf.data[rows]')
-    pre = [c for c in gf.calls() if dotted(c.func) in ('np.empty', 'np.zeros', 'np.full')]
-    nanfill = any(isinstance(x, ast.Assign) and unparse(x.targets[0]).replace(' ', '') == 'features[:]' and unparse(x.value) == 'np.nan' for x in gf.nodes(ast.Assign))
-    ctx.check(nanfill, 'C06.A1', gf, 'pre-fill', 'spikes absent from the store are marked NaN before densification (values are claimed for stored spikes only)', 'rows of spikes absent from the store are left uninitialised')
-    col = [x for x in gf.nodes(ast.Assign) if unparse(x.targets[0]) == 'cols' and 'sf.cols' in unparse(x.value)]
-    ctx.check(bool(col) and unparse(col[0].value).replace(' ', '') == 'sf.cols[self.spike_templates[spike_ids]]', 'C06.A1', gf, col[0] if col else 'get_features',
-              'the column table of a spike is the row of its template', 'the columns of a spike are not sf.cols[spike_templates[spike_ids]]')
-    dens = [c for c in gf.calls() if dotted(c.func) == 'from_sparse']
-    ctx.check(bool(dens) and [unparse(x) for x in dens[0].args] == ['features', 'cols', 'channel_ids'], 'C06.A1', gf, dens[0] if dens else 'get_features',
-              'densification over the requested channels', 'from_sparse is not called with (features, cols, channel_ids)')
+    # structural: which vector goes where (patterns with metavariables for the locals)
+    sidp, chp_ = gf.params[1], gf.params[2]
+    P = Pat(gf)
+    sfd = P.stmt('V_sf = self.sparse_features')
+    sfn = P.name('V_sf') or 'self.sparse_features'
+    ini = P.stmt('V_feat = np.empty(ANY)') or P.stmt('V_feat = np.empty(ANY, REST)') or P.stmt('V_feat = np.full(ANY, np.nan)') or P.stmt('V_feat = np.full(ANY, np.nan, REST)')
+    def tri(rule, node, good, bad, ok_msg, bad_msg, und_msg):
+        if good:
+            ctx.holds(rule, gf, ok_msg, node)
+        elif bad:
+            ctx.violated(rule, gf, node, bad_msg)
+        else:
+            ctx.undecided(rule, gf, und_msg, node if not isinstance(node, str) else None)
+    if ini is None:
+        ctx.undecided('C06.A1', gf, 'allocation of the sparse feature block not recognised')
+    else:
+        fn_ = P.name('V_feat')
+        r_in = P.stmt('V_rows = _index_of(V_s, %s.rows)' % sfn)
+        r_out = P.stmt('V_rows_out = _index_of(V_s, %s)' % sidp) if r_in is not None else None
+        st = P.stmt('%s[V_rows_out, ...] = %s.data[V_rows]' % (fn_, sfn)) or P.stmt('%s[V_rows_out] = %s.data[V_rows]' % (fn_, sfn)) if r_out is not None else None
+        sw = None
+        if r_in is not None and r_out is not None and st is None:
+            sw = Pat(gf, P.b).stmt('%s[V_rows, ...] = %s.data[V_rows_out]' % (fn_, sfn)) or Pat(gf, P.b).stmt('%s[V_rows_out, ...] = %s.data[V_rows_out]' % (fn_, sfn)) or \
+                Pat(gf, P.b).stmt('%s[V_rows, ...] = %s.data[V_rows]' % (fn_, sfn))
+        swapped_tables = None
+        if r_in is None:
+            PX = Pat(gf, P.b)
+            swapped_tables = PX.stmt('V_rows = _index_of(V_s, %s)' % sidp) and PX.stmt('V_rows_out = _index_of(V_s, %s.rows)' % sfn) and PX.stmt('%s[V_rows_out, ...] = %s.data[V_rows]' % (fn_, sfn))
+        tri('C06.A1', st or sw or r_in or 'rows', st is not None, sw is not None or bool(swapped_tables), 'stored rows (positions in the row table) are written to the positions of those spikes in the request',
+            'the stored rows are not written as features[positions in the request, ...] = data[positions in the row table] (`%s`)' % (unparse(sw) if sw is not None else 'position tables swapped'),
+            'row bookkeeping of get_features not recognised')
+        fill = P.stmt('%s[:] = np.nan' % fn_) or P.stmt('%s[...] = np.nan' % fn_) or P.stmt('%s.fill(np.nan)' % fn_)
+        full_nan = isinstance(ini.value, ast.Call) and dotted(ini.value.func) == 'np.full'
+        zero_init = P.stmt('V_feat2 = np.zeros(ANY)') is not None
+        tri('C06.A1', fill or ini, fill is not None or full_nan, fill is None and not full_nan and dotted(ini.value.func) == 'np.empty',
+            'spikes absent from the store are marked NaN before densification (values are claimed for stored spikes only)', 'rows of spikes absent from the store are left uninitialised (np.empty without a NaN fill)',
+            'pre-fill of the feature block not recognised')
+        col = P.stmt('V_cols = %s.cols[self.spike_templates[%s]]' % (sfn, sidp))
+        col_bad = None
+        if col is None:
+            col_bad = P.stmt('V_cols = %s.cols[self.spike_clusters[%s]]' % (sfn, sidp)) or P.stmt('V_cols = %s.cols[%s]' % (sfn, sidp)) or P.stmt('V_cols = %s.cols[E_x]' % sfn)
+        tri('C06.A1', col or col_bad or 'cols', col is not None, col_bad is not None, 'the column table of a spike is the row of its template',
+            'the columns of a spike are `%s`, not cols[spike_templates[spike_ids]]' % (unparse(col_bad.value) if col_bad is not None else ''), 'column table of the requested spikes not recognised')
+        dens = [c for c in gf.calls() if dotted(c.func) == 'from_sparse']
+        if not dens or len(dens[0].args) < 3:
+            ctx.undecided('C06.A1', gf, 'densification call from_sparse(...) not recognised')
+        else:
+            a0, a1, a2 = dens[0].args[:3]
+            g = isinstance(a0, ast.Name) and a0.id == fn_ and isinstance(a1, ast.Name) and a1.id == (P.name('V_cols') or '?') and Pat().m(chp_, a2)
+            vocab = {fn_, P.name('V_cols'), chp_, sidp}
+            b_ = not g and {n.id for a_ in (a0, a1, a2) for n in ast.walk(a_) if isinstance(n, ast.Name)} <= vocab
+            tri('C06.A1', dens[0], g, b_, 'densification over the requested channels', 'from_sparse is called as `%s`, not with (features, column table, requested channels)' % unparse(dens[0]),
+                'arguments of from_sparse not recognised')
     dens = [c for c in gtf.calls() if dotted(c.func) == 'from_sparse']
     ctx.check(bool(dens) and unparse(dens[0].args[2]).replace(' ', '') == 'np.arange(self.n_templates)', 'C06.A2', gtf, dens[0] if dens else 'get_template_features',
               'template features are densified over all templates 0..n_templates-1', 'template features are not densified over np.arange(n_templates)')
@@ -142,16 +182,34 @@ def run(ctx):
     pj = [x for x in cf.calls() if dotted(x.func) == '_project_pcs']
     ctx.check(bool(pj) and unparse(pj[0].args[0]) == cf.params[0], 'C06.A4', cf, pj[0] if pj else 'compute_features', 'the same waveforms are projected on their components', 'the projected data are not the given waveforms')
     cp_ = repo.func(M, '_compute_pcs')
-    srt = [n for n in cp_.nodes(ast.Subscript) if 'np.argsort(vals)[::-1]' in unparse(n).replace(' ', '')]
-    ctx.check(bool(srt), 'C06.A4', cp_, srt[0] if srt else '_compute_pcs', 'components are ordered by decreasing eigenvalue (leading first)', 'components are not ordered by decreasing eigenvalue')
+    PC_ = Pat(cp_)
+    eig = PC_.stmt('(V_vals, V_vecs) = np.linalg.eigh(ANY)') or PC_.stmt('(V_vals, V_vecs) = np.linalg.eig(ANY)')
+    if eig is None:
+        ctx.undecided('C06.A4', cp_, 'eigen-decomposition in _compute_pcs not recognised')
+    else:
+        desc = PC_.expr('np.argsort(V_vals)[::-1]') or PC_.expr('np.argsort(-V_vals)') or PC_.expr('V_vals.argsort()[::-1]')
+        asc = PC_.expr('np.argsort(V_vals)') if desc is None else None
+        if desc is not None:
+            ctx.holds('C06.A4', cp_, 'components are ordered by decreasing eigenvalue (leading first)', desc)
+        elif asc is not None:
+            ctx.violated('C06.A4', cp_, asc, 'components are ordered by INCREASING eigenvalue: the first npcs components are the least significant ones')
+        else:
+            ctx.undecided('C06.A4', cp_, 'ordering of the components by eigenvalue not recognised')
     S = Shape(repo, selfattrs=model_attrs(no_features=True, store=True), sigs=COMMON_SIGS, inline_depth=3)
     res = S.result(gf, {'self': UNK, 'spike_ids': req_s, 'channel_ids': req_c})
     nrep += flush(ctx, S, 'get_features from waveforms')
     ok = isinstance(res, Arr) and len(res.axes) == 3 and res.axes[0] is ReqS and res.axes[1] is ReqC
     ctx.check(ok, 'C06.A4', gf, 'from waveforms axes', 'features from waveforms on (requested spikes, requested channels, 3)', 'features from waveforms are %s' % res)
-    ind = [x for x in gf.nodes(ast.Assign) if unparse(x.targets[0]) == 'ind' and isinstance(x.value, ast.Call) and dotted(x.value.func) == '_index_of']
-    ctx.check(bool(ind) and [unparse(z) for z in ind[0].value.args] == ['spike_ids_exist', 'spike_ids'], 'C06.A4', gf, ind[0] if ind else 'get_features',
-              'computed features are placed at the positions of the stored spikes within the request', 'computed features are not placed by _index_of(stored spikes, requested spikes)')
+    PW = Pat(gf)
+    ex_ = PW.stmt('V_exist = np.intersect1d(%s, self.spike_waveforms.spike_ids)' % sidp)
+    ind = PW.stmt('V_ind = _index_of(V_exist, %s)' % sidp) if ex_ is not None else None
+    ind_bad = Pat(gf, PW.b).stmt('V_ind = _index_of(%s, V_exist)' % sidp) if ex_ is not None and ind is None else None
+    if ind is not None:
+        ctx.holds('C06.A4', gf, 'computed features are placed at the positions of the stored spikes within the request', ind)
+    elif ind_bad is not None:
+        ctx.violated('C06.A4', gf, ind_bad, 'computed features are placed by `%s`, not by the positions of the stored spikes within the request' % unparse(ind_bad.value))
+    else:
+        ctx.undecided('C06.A4', gf, 'placement of the computed features not recognised')
     if nrep == 0:
         ctx.holds('C06.A0', gf, 'no index-space conflict in get_features (3 configurations), get_template_features (2), _project_pcs', 'feature access')
 
